@@ -305,6 +305,8 @@ func c07Run(w *explore.Worker, c c07Case) {
 			// create an account under the hostile login first, then modify it
 			send(ref.Tx{Type: ref.TNewUser, Fields: []ref.Fld{ref.F(ref.FUserLogin, obf(val("login", "nu"))), ref.FS(ref.FUserName, "N"), ref.F(ref.FUserPassword, obf("p")), ref.F(ref.FUserAccess, make([]byte, 8))}})
 			send(ref.Tx{Type: ref.TSetUser, Fields: []ref.Fld{ref.F(ref.FUserLogin, obf(val("login", "nu"))), ref.FS(ref.FUserName, "changed"), ref.F(ref.FUserPassword, []byte{0}), ref.F(ref.FUserAccess, make([]byte, 8))}})
+			// ... and delete it again (the login now names an account: the delete is carried out)
+			send(ref.Tx{Type: ref.TDeleteUser, Fields: []ref.Fld{ref.F(ref.FUserLogin, obf(val("login", "nu")))}})
 		case "acctdelete":
 			send(ref.Tx{Type: ref.TDeleteUser, Fields: []ref.Fld{ref.F(ref.FUserLogin, obf(val("login", "vic")))}})
 			send(ref.Tx{Type: ref.TUpdateUser, Fields: []ref.Fld{ref.F(ref.FData, subFields(ref.F(ref.FData, obf(val("login", "vic")))))}})
